@@ -50,9 +50,12 @@ def write_case(case, d):
     fr, opts = case["frame"], case["opts"]
     df = cases.build_frame(fr)
     path = _path(d, opts)
+    kw = cases.write_kwargs(opts)
+    if case.get("partition_on"):
+        kw["partition_on"] = list(case["partition_on"])
     try:
         with cases.writer_globals(opts):
-            fastparquet.write(path, df, **cases.write_kwargs(opts))
+            fastparquet.write(path, df, **kw)
     except Exception as e:
         return df, path, e
     return df, path, None
